@@ -82,15 +82,37 @@ def _init_worker(modname):
         _MOD.init_worker()
 
 
+def _global_state():
+    import torch
+    return {'torch_default_dtype': str(torch.get_default_dtype()), 'torch_grad_enabled': bool(torch.is_grad_enabled()),
+            'torch_deterministic_algorithms': bool(torch.are_deterministic_algorithms_enabled())}
+
+
 def _run_inline(chunk):
+    """runs the cases of a chunk; after every case the interpreter-wide state a library call must not leave changed (torch
+    default dtype, grad mode, ...) is compared with the state at the start: a change is a violation attributed to that case
+    (class global_state.<what>_changed) and the state is restored so that the following cases are not affected"""
     out = []
     for idx, case in chunk:
         try:
-            r = _MOD.run_case(case)
-            out.append((idx, case, dict(r), None))
+            out.append((idx, case, run_guarded(_MOD, case), None))
         except Exception:
             out.append((idx, case, None, traceback.format_exc()))
     return out
+
+
+def run_guarded(mod, case):
+    import torch
+    g0 = _global_state()
+    r = dict(mod.run_case(case))
+    g1 = _global_state()
+    if g1 != g0:
+        for k in g0:
+            if g1[k] != g0[k]:
+                r.setdefault('violations', []).append({'cls': 'global_state.%s_changed' % k, 'detail': '%s -> %s after this case' % (g0[k], g1[k])})
+        torch.set_default_dtype({'torch.float32': torch.float32, 'torch.float64': torch.float64}.get(g0['torch_default_dtype'], torch.float32))
+        torch.set_grad_enabled(g0['torch_grad_enabled'])
+    return r
 
 
 def _budget():
@@ -478,7 +500,7 @@ def replay(path, quiet=False):
         except Exception as e:
             if not quiet:
                 print('plain replay failed:', repr(e))
-    r = mod.run_case(rec['case'])
+    r = run_guarded(mod, rec['case'])
     cls = [v['cls'] for v in r['violations']]
     if not quiet:
         print(json.dumps({'case': rec['case'], 'expected_class': rec['cls'], 'observed': r['violations'],
